@@ -62,12 +62,33 @@ def rule_catalogue(run, prog):
     run.ob("R-8.1", "norm_error.py::errors::well-formed", not dup_bad,
            "catalogue literal: " + "; ".join(w for _, w in dup_bad[:3]), dup_bad[0][0] if dup_bad else lit)
     fnm = prog.method("Error", "from_name")
-    ok = fnm is not None and any(isinstance(n, ast.Subscript) and text(n.value) == "errors_dict" and text(n.slice) == "name"
-                                 for n in walk_fn(fnm.node))
-    imp = prog.mod("errors.py").imports.get("errors_dict")
-    ok = ok and imp == ("norminette.norm_error", "errors")
-    run.ob("R-8.1", "errors.py::Error.from_name::text-from-catalogue", ok,
-           "Error.from_name does not take the text from norm_error.errors[name]", fnm.node if fnm else None)
+    run.require(fnm is not None, "anchor vanished: Error.from_name")
+    # interpreted for every key of the catalogue: free names of errors.py are resolved through that module's imports
+    from .c04 import ErrorsModel
+    from ..minieval import ClassRef, Unsupported
+    from ..xeval import Raised
+    model = ErrorsModel(prog)
+    bad = None
+    try:
+        ev = model.evaluator(max_steps=2000000)
+        from_name = ev.getattr(ClassRef("Error"), "from_name")
+        for k, want in cat.items():
+            try:
+                e = ev.call_value(from_name, [k], {})
+                got = (ev.getattr(e, "name"), ev.getattr(e, "text"))
+            except Raised as r:
+                got = ("exception", repr(r.value))
+            if got != (k, want) and bad is None:
+                bad = f"Error.from_name({k!r}) has (name, text) = {got}"
+        try:
+            ev.call_value(from_name, ["NO_SUCH_CODE_"], {})
+            bad = bad or "Error.from_name accepts a code that is not in the catalogue"
+        except Raised as r:
+            pass
+    except Unsupported as e:
+        raise AnalysisError(f"Error.from_name is outside the evaluable subset: {e}")
+    run.ob("R-8.1", "errors.py::Error.from_name::text-from-catalogue", bad is None,
+           f"Error.from_name does not take the text from norm_error.errors[name]: {bad}", fnm.node, evaluations=len(cat) + 1)
 
 
 def rule_levels(run, prog):
@@ -85,27 +106,63 @@ def rule_levels(run, prog):
     nw = prog.method("Context", "new_warning")
     ne = prog.method("Context", "new_error")
     run.require(nw is not None and ne is not None, "anchor vanished: Context.new_error / new_warning")
-    lv = [k.value for n in walk_fn(nw.node) if isinstance(n, ast.Call) for k in n.keywords if k.arg == "level"]
-    run.ob("R-8.2", f"{nw.key}::notice", bool(lv) and all(try_fold(v, nw.mod) == "Notice" for v in lv),
-           "Context.new_warning does not create a Notice", nw.node)
-    lv = [k.value for n in walk_fn(ne.node) if isinstance(n, ast.Call) for k in n.keywords if k.arg == "level"]
-    run.ob("R-8.2", f"{ne.key}::error", all(try_fold(v, ne.mod) == "Error" for v in lv),
-           "Context.new_error passes a level other than Error", ne.node)
-    # dataclass default
+    got_w = _emit_through_context(prog, "new_warning")
+    got_e = _emit_through_context(prog, "new_error")
+    run.ob("R-8.2", f"{nw.key}::notice", got_w[0] == ["Notice"], f"Context.new_warning does not create a Notice: {got_w[0] or got_w[2]}", nw.node)
+    run.ob("R-8.2", f"{ne.key}::error", got_e[0] == ["Error"], f"Context.new_error passes a level other than Error: {got_e[0] or got_e[2]}", ne.node)
+    # defaults, by interpretation
+    from .c04 import ErrorsModel
+    from ..minieval import Unsupported
+    from ..xeval import Raised
     ec = prog.cls("Error")
-    d = None
-    for st in ec.node.body:
-        if isinstance(st, ast.AnnAssign) and isinstance(st.target, ast.Name) and st.target.id == "level" and st.value is not None:
-            for k in getattr(st.value, "keywords", []):
-                if k.arg == "default":
-                    d = try_fold(k.value, ec.mod)
-            if isinstance(st.value, ast.Constant):
-                d = st.value.value
-    run.ob("R-8.2", f"{ec.key}::default-level", d == "Error", f"Error.level default is {d!r}", ec.node)
     addm = prog.method("Errors", "add")
-    ok = any(isinstance(n, ast.Call) and text(n.func) == "kwargs.setdefault" and len(n.args) == 2
-             and try_fold(n.args[0], addm.mod) == "level" and try_fold(n.args[1], addm.mod) == "Error" for n in walk_fn(addm.node))
-    run.ob("R-8.2", f"{addm.key}::default-level", ok, "Errors.add no longer defaults level to Error", addm.node)
+    run.require(addm is not None, "anchor vanished: Errors.add")
+    model = ErrorsModel(prog)
+    try:
+        ev = model.evaluator()
+        try:
+            d = ev.getattr(ev.instantiate("Error", ["X", "text"], {}), "level")
+        except Raised as r:
+            d = f"exception {r.value!r}"
+        run.ob("R-8.2", f"{ec.key}::default-level", d == "Error", f"Error.level default is {d!r}", ec.node)
+        errors = model.new_errors(ev)
+        try:
+            model.add(ev, errors, "name-default", None)
+            lv = model.stored_levels(ev, errors)
+        except Raised as r:
+            lv = [f"exception {r.value!r}"]
+        run.ob("R-8.2", f"{addm.key}::default-level", lv == ["Error"], f"Errors.add no longer defaults level to Error: {lv}", addm.node)
+    except Unsupported as e:
+        raise AnalysisError(f"class Errors / Error is outside the evaluable subset: {e}")
+
+
+def _emit_through_context(prog, mname):
+    """Interpret Context.<mname>("TOO_MANY_LINES", token) on a stub context holding a real Errors container.
+    Returns (levels, [(name, text, first position)], problem)."""
+    from .c04 import FormatterBench
+    from ..minieval import Obj, Unsupported
+    from ..xeval import Raised
+    try:
+        b = FormatterBench(prog)
+        ev = b.ev
+        errors = ev.instantiate("Errors", [], {})
+        file = Obj("File", path="t.c", basename="t.c", errors=errors)
+        ctx = Obj("Context", errors=errors, file=file, tokens=[], debug=0)
+        tok = Obj("Token", type="IDENTIFIER", value="v", pos=(7, 3), lineno=7, column=3, length=1, unsafe_length=1, line=7, col=3)
+        try:
+            ev.call_method(ctx, mname, ["TOO_MANY_LINES", tok], {})
+        except Raised as r:
+            return [], [], f"raises {r.value!r}"
+        out = list(ev.iterate(errors))
+        levels = [ev.getattr(e, "level") for e in out]
+        shape = []
+        for e in out:
+            hl = ev.getattr(e, "highlights")
+            first = (ev.getattr(hl[0], "lineno"), ev.getattr(hl[0], "column")) if hl else None
+            shape.append((ev.getattr(e, "name"), ev.getattr(e, "text"), first))
+        return levels, shape, None
+    except Unsupported as e:
+        raise AnalysisError(f"Context.{mname} is outside the evaluable subset: {e}")
 
 
 def _is_error_ctor(v) -> bool:
@@ -187,13 +244,14 @@ def rule_positioned(run, prog):
                    f"without position (the human formatter indexes highlights[0])", bad[0] if bad else cnode,
                    adds=len(adds), highlights=len(hnodes))
     run.require(n_sites >= 12, f"only {n_sites} Error creation sites found (floor 12)")
+    cat = catalogue(prog)
     for mname in ("new_error", "new_warning"):
         m = prog.method("Context", mname)
-        ok = any(_has_nonempty_highlights(n) is True and "Highlight.from_token" in text(n)
-                 and (_is_error_ctor(n) or (isinstance(n.func, ast.Attribute) and n.func.attr in ("add", "append")
-                                            and text(n.func.value).endswith("errors")))
-                 for n in walk_fn(m.node) if isinstance(n, ast.Call))
-        run.ob("R-8.3", f"{m.key}::positioned", ok, f"Context.{mname} does not attach Highlight.from_token(tkn)", m.node)
+        levels, shape, problem = _emit_through_context(prog, mname)
+        ok = problem is None and shape == [("TOO_MANY_LINES", cat.get("TOO_MANY_LINES"), (7, 3))]
+        run.ob("R-8.3", f"{m.key}::positioned", ok,
+               f"Context.{mname} does not add exactly one catalogue diagnostic positioned at the token (Highlight.from_token(tkn)): "
+               f"{problem or shape}", m.node)
 
 
 def _contains(container, node) -> bool:
@@ -287,13 +345,39 @@ def rule_order(run, prog):
                                              Obj("Highlight", lineno=q[0], column=q[1], length=1, hint="hint")]))
     bad, n = laws(E, lambda e: (e.highlights[0].lineno, e.highlights[0].column), "Error.__lt__", el)
     run.ob("R-8.4", f"{el.key}::ascending", bad is None, bad or "ok", el.node, evaluations=n)
-    # Errors.__iter__ sorts with these comparators
+    # Errors hands out its diagnostics sorted by these comparators: interpreted on containers filled in descending and
+    # mixed order, by instance and by name, and with diagnostics positioned only after they were added
     it = prog.method("Errors", "__iter__")
-    ok = it is not None and any(isinstance(x, ast.Call) and text(x.func) in ("self._inner.sort", "sorted") and
-                                not any(k.arg == "reverse" for k in x.keywords) for x in walk_fn(it.node))
-    uses_key = it is not None and any(isinstance(x, ast.Call) and any(k.arg == "key" for k in x.keywords) for x in walk_fn(it.node))
-    run.ob("R-8.4", "errors.py::Errors.__iter__::sorted-view", ok and not uses_key,
-           "Errors.__iter__ does not hand out the diagnostics sorted by Error.__lt__ (ascending)", it.node if it else None)
+    from .c04 import ErrorsModel
+    from ..minieval import ClassRef
+    from ..xeval import Raised
+    model = ErrorsModel(prog)
+    bad = None
+    try:
+        for order in ([(5, 1), (3, 2), (3, 1)], [(1, 1), (2, 1), (1, 2)], [(2, 2), (2, 2), (1, 9)], [(9, 9)], []):
+            for late in (False, True):
+                ev = model.evaluator()
+                errors = model.new_errors(ev)
+                try:
+                    for i, pos in enumerate(order):
+                        if late:
+                            e = ev.call_value(ev.getattr(ClassRef("Error"), "from_name"), ["TOO_MANY_LINES"], {"level": "Error"})
+                            ev.call_method(errors, "add", [e], {})
+                            ev.call_method(e, "add_highlight", list(pos), {})
+                        else:
+                            model.add(ev, errors, ("inst", "name")[i % 2], "Error", pos=pos)
+                    for _twice in (0, 1):
+                        got = [(ev.getattr(ev.getattr(e, "highlights")[0], "lineno"), ev.getattr(ev.getattr(e, "highlights")[0], "column"))
+                               for e in ev.iterate(errors)]
+                        if got != sorted(order) and bad is None:
+                            bad = (f"diagnostics added at {order}" + (" (positioned after being added)" if late else "")
+                                   + f" are handed out as {got}")
+                except Raised as r:
+                    bad = bad or f"iteration raises {r.value!r}"
+    except Unsupported as e:
+        raise AnalysisError(f"class Errors is outside the evaluable subset: {e}")
+    run.ob("R-8.4", "errors.py::Errors.__iter__::sorted-view", bad is None,
+           f"Errors.__iter__ does not hand out the diagnostics sorted by Error.__lt__ (ascending): {bad}", it.node if it else None)
     # multi-highlight creation sites list the smallest position first
     n_multi = 0
     for fn in prog.fns:
@@ -395,33 +479,84 @@ def _ascending(seq):
 
 
 def rule_formatters(run, prog):
-    run.rule("R-8.5", "sibling agreement: each formatter iterates self.files once, in order, unfiltered, obtains the "
-             "diagnostics only by iterating file.errors (Errors._inner is private to class Errors), the JSON text is "
-             "json.dumps of a structure built from those sources, and the human line reads fields that asdict() exports", floor=6)
+    run.rule("R-8.5", "sibling agreement, by interpretation of both formatters on the same File objects (three files in "
+             "non-alphabetical order, diagnostics added in descending order of position, several highlights, texts with "
+             "quotes / backslashes / non-ASCII letters): each report names every file exactly once and in the given order, "
+             "lists every diagnostic once, in the ascending order in which file.errors hands them out (Errors._inner stays "
+             "private to class Errors), the JSON text is one valid document exporting status and every dataclass field, and "
+             "the human line shows the level, code, first highlight and text of the same diagnostics", floor=6)
+    import json as _json
+    import posixpath
+    from .c04 import FormatterBench
+    from ..mainmodel import parse_human, parse_json
+    from ..xeval import Raised
     fmts = prog.subclasses("_formatter")
     run.require(len(fmts) >= 2, "fewer than two formatters")
+    weird = 'he said "hi" \\ back/slash \u00e9\u2603 {brace} %s'
+
+    def build(b):
+        files = []
+        plan = [("zz/zz.c", [("Error", (9, 1)), ("Notice", (4, 7)), ("Error", (4, 2)), ("Error", (1, 1))]),
+                ("aa.c", []),
+                ("mm.h", [("Notice", (2, 2)), ("Error", (2, 1))])]
+        for path, diags in plan:
+            ds = []
+            for i, (lv, pos) in enumerate(diags):
+                if i == 1:
+                    ds.append(b.error("CUSTOM_CODE", weird, level=lv, positions=(pos, (pos[0], pos[1] + 3))))
+                else:
+                    ds.append(b.error(("TOO_MANY_LINES", "SPC_INSTEAD_TAB", "INVALID_HEADER", "TOO_MANY_ARGS")[i % 4], level=lv, positions=(pos,)))
+            files.append(b.real_file(path, ds))
+        return files, plan
+
+    outs = {}
+    problems = {}
+    try:
+        for c in fmts:
+            b = FormatterBench(prog)
+            files, plan = build(b)
+            try:
+                outs[c.name] = b.render(c.name, files, use_colors=False)
+            except Raised as r:
+                outs[c.name] = None
+                problems[c.name] = f"the formatter raises {r.value!r}"
+    except Unsupported as e:
+        raise AnalysisError(f"a formatter is outside the evaluable subset: {e}")
+    b0 = FormatterBench(prog)
+    _, plan = build(b0)
+    want_names = [p for p, _ in plan]
+    want_diags = {posixpath.basename(p): sorted((pos, lv) for lv, pos in d) for p, d in plan}
+
+    def parsed(c):
+        out = outs.get(c.name)
+        if out is None:
+            return None, [problems.get(c.name, "no output")], 0
+        if c.name.startswith("JSON") or out.lstrip().startswith("{"):
+            f, stray, ndocs = parse_json(out)
+            return f, stray, ndocs
+        f, stray = parse_human(out)
+        return f, stray, None
+
     for c in fmts:
-        m = c.methods.get("__str__")
+        m = c.methods.get("__str__") or prog.method(c.name, "__str__")
         run.require(m is not None, f"{c.key} has no __str__")
-        loops = [n for n in walk_fn(m.node) if isinstance(n, (ast.For, ast.comprehension)) and "files" in text(n.iter)]
-        ok = len(loops) == 1 and text(loops[0].iter) == "self.files"
+        files, stray, _ = parsed(c)
+        names = [posixpath.basename(str(n)) for n, _, _ in files] if files is not None else None
+        ok = files is not None and names == [posixpath.basename(p) for p in want_names]
         run.ob("R-8.5", f"{m.key}::files-once-in-order", ok,
-               f"formatter does not iterate self.files exactly once, unfiltered and in order ({[text(l.iter) for l in loops]})",
-               loops[0] if loops else m.node)
-        srcs = []
-        for n in walk_fn(m.node):
-            if isinstance(n, ast.Attribute) and n.attr == "errors" and isinstance(n.ctx, ast.Load):
-                p = parent(n)
-                if isinstance(p, ast.Attribute) and p.attr == "status":
-                    continue
-                # allowed consumers: `for error in file.errors`, map(asdict, file.errors), tuple/list(...)
-                okc = (isinstance(p, (ast.For, ast.comprehension)) and p.iter is n) or \
-                      (isinstance(p, ast.Call) and text(p.func) in ("map", "list", "tuple", "iter") and p.args[-1] is n)
-                srcs.append((n, okc))
-        ok = bool(srcs) and all(o for _, o in srcs)
-        run.ob("R-8.5", f"{m.key}::errors-by-iteration", ok,
-               "formatter obtains the diagnostics other than by plain iteration of file.errors (sorted/filtered/indexed view)",
-               next((n for n, o in srcs if not o), m.node))
+               f"formatter does not iterate self.files exactly once, unfiltered and in order (files reported: {names}; {problems.get(c.name, '')})",
+               m.node)
+        bad = None
+        if files is None:
+            bad = problems.get(c.name)
+        else:
+            for n, st, diags in files:
+                got = [((ln, col), lv) for lv, code, ln, col, txt in diags]
+                want = want_diags.get(posixpath.basename(str(n)))
+                if want is not None and got != want:
+                    bad = bad or f"{posixpath.basename(str(n))}: diagnostics shown as {got}, file.errors hands out {want}"
+        run.ob("R-8.5", f"{m.key}::errors-by-iteration", bad is None,
+               f"formatter obtains the diagnostics other than by plain iteration of file.errors (sorted/filtered/indexed view): {bad}", m.node)
     # _inner is private
     outside = []
     for fn in prog.fns:
@@ -431,35 +566,63 @@ def rule_formatters(run, prog):
     run.ob("R-8.5", "errors.py::Errors::_inner-private", not outside,
            "Errors._inner (the unsorted list) is read outside class Errors: " + ", ".join(f.key for f, _ in outside[:3]),
            outside[0][1] if outside else None)
+    jc = prog.cls("JSONErrorsFormatter")
     js = prog.method("JSONErrorsFormatter", "__str__")
-    rets = [n for n in walk_fn(js.node) if isinstance(n, ast.Return)]
-    ok = len(rets) == 1 and any(isinstance(x, ast.Call) and text(x.func) == "json.dumps" for x in ast.walk(rets[0]))
-    if ok:
-        v = rets[0].value
-        ok = (isinstance(v, ast.Call) and text(v.func) == "json.dumps") or \
-             (isinstance(v, ast.BinOp) and isinstance(v.op, ast.Add) and isinstance(v.left, ast.Call)
-              and text(v.left.func) == "json.dumps" and try_fold(v.right, js.mod) == "\n")
-    run.ob("R-8.5", f"{js.key}::valid-json-by-construction", ok,
-           "the JSON formatter's result is not json.dumps(<structure>) (+ newline): validity is no longer by construction",
-           rets[0] if rets else js.node)
-    uses_asdict = any(isinstance(x, ast.Name) and x.id == "asdict" for x in walk_fn(js.node))
-    status_read = any(isinstance(x, ast.Attribute) and x.attr == "status" for x in walk_fn(js.node))
-    run.ob("R-8.5", f"{js.key}::fields", uses_asdict and status_read,
-           "the JSON formatter does not export asdict(error) and errors.status", js.node)
+    jout = outs.get("JSONErrorsFormatter")
+    bad = None
+    doc = None
+    if jout is None:
+        bad = problems.get("JSONErrorsFormatter", "no output")
+    else:
+        try:
+            doc = _json.loads(jout)
+        except ValueError as e:
+            bad = f"not a JSON document: {e}"
+        if bad is None and not jout.endswith("\n"):
+            bad = "the document is not followed by a newline"
+    run.ob("R-8.5", f"{js.key}::valid-json-by-construction", bad is None,
+           f"the JSON formatter's result is not one valid JSON document (+ newline) for texts with quotes, backslashes and "
+           f"non-ASCII letters: {bad}", js.node)
+    bad = None
+    efields = _dataclass_fields(prog.cls("Error"))
+    hfields = _dataclass_fields(prog.cls("Highlight"))
+    if doc is None:
+        bad = "no document"
+    else:
+        fl = doc.get("files") if isinstance(doc, dict) else None
+        if not isinstance(fl, list) or len(fl) != len(plan):
+            bad = "no `files` list with one entry per file"
+        else:
+            for entry, (path, diags) in zip(fl, plan):
+                want_status = "Error" if any(lv == "Error" for lv, _ in diags) else "OK"
+                if entry.get("status") != want_status:
+                    bad = bad or f"{path}: status {entry.get('status')!r}, expected {want_status!r}"
+                for e in entry.get("errors", []):
+                    if set(e) != efields:
+                        bad = bad or f"{path}: a diagnostic is exported with the fields {sorted(e)}, Error has {sorted(efields)}"
+                    for h in e.get("highlights", []):
+                        if set(h) != hfields:
+                            bad = bad or f"{path}: a highlight is exported with the fields {sorted(h)}"
+                if weird not in [e.get("text") for e in entry.get("errors", [])] and any(True for _ in diags[1:2]):
+                    bad = bad or f"{path}: the text of a diagnostic does not survive the export"
+    run.ob("R-8.5", f"{js.key}::fields", bad is None,
+           f"the JSON formatter does not export asdict(error) and errors.status: {bad}", js.node)
     hm = prog.method("HumanizedErrorsFormatter", "__str__")
-    # fields of Error / Highlight that the human formatter reads must be dataclass fields (exported by asdict)
-    fields = {"Error": _dataclass_fields(prog.cls("Error")), "Highlight": _dataclass_fields(prog.cls("Highlight"))}
-    bad = []
-    for n in list(walk_fn(hm.node)) + list(walk_fn(prog.method("HumanizedErrorsFormatter", "_colorize_error_text").node)):
-        if isinstance(n, ast.Attribute) and isinstance(n.value, ast.Name):
-            if n.value.id == "error" and n.attr not in fields["Error"]:
-                bad.append(n)
-            if n.value.id == "highlight" and n.attr not in fields["Highlight"]:
-                bad.append(n)
-    first = any(isinstance(n, ast.Assign) and text(n.value) == "error.highlights[0]" for n in walk_fn(hm.node))
-    run.ob("R-8.5", f"{hm.key}::fields-subset-of-json", not bad and first,
-           "the human formatter prints something asdict() does not export, or not the first highlight: "
-           + ", ".join(text(b) for b in bad[:3]), bad[0] if bad else hm.node)
+    hf, hstray, _ = parsed(prog.cls("HumanizedErrorsFormatter"))
+    jf, _, _ = parsed(jc)
+    bad = None
+    if hf is None or jf is None:
+        bad = problems.get("HumanizedErrorsFormatter") or problems.get("JSONErrorsFormatter")
+    else:
+        if hstray:
+            bad = f"lines that are neither a verdict nor a diagnostic: {hstray[:2]}"
+        a_ = [(posixpath.basename(str(n)), st, d) for n, st, d in hf]
+        b_ = [(posixpath.basename(str(n)), st, d) for n, st, d in jf]
+        if a_ != b_ and bad is None:
+            diff = next((x for x, y in zip(a_, b_) if x != y), None)
+            bad = f"the two reports differ: human {diff}"
+    run.ob("R-8.5", f"{hm.key}::fields-subset-of-json", bad is None,
+           f"the human formatter prints something asdict() does not export, or not the first highlight: {bad}", hm.node)
 
 
 def _dataclass_fields(c) -> Set[str]:
